@@ -119,6 +119,10 @@ class OSet(collections.abc.MutableSet):
         return x in self._d
 
     def __iter__(self):
+        # the owning world may ask for another iteration order (set_order = "rev"): library code that iterates a set of
+        # id-hashed objects may see them in any order, scenarios explore insertion order and its reverse
+        if getattr(CTX.world, "set_order", "ins") == "rev":
+            return iter(list(self._d)[::-1])
         return iter(list(self._d))
 
     def __len__(self):
